@@ -107,12 +107,15 @@ fn add_val_val<R: Round, const B: Word>(
     assert_finite_operands(&lhs.repr, &rhs.repr);
 
     let context = Context::max(lhs.context, rhs.context);
-    rhs.repr.significand *= rhs_sign;
+    // a zero operand must give the same result as `Context::add/sub`: the other operand, rounded
     let sum = if lhs.repr.is_zero() {
-        rhs.repr
+        let mut repr = context.repr_round(rhs.repr).value();
+        repr.significand *= rhs_sign;
+        repr
     } else if rhs.repr.is_zero() {
-        lhs.repr
+        context.repr_round(lhs.repr).value()
     } else {
+        rhs.repr.significand *= rhs_sign;
         match lhs.repr.exponent.cmp(&rhs.repr.exponent) {
             Ordering::Equal => context.repr_round(Repr::new(
                 lhs.repr.significand + rhs.repr.significand,
@@ -135,11 +138,11 @@ fn add_val_ref<R: Round, const B: Word>(
 
     let context = Context::max(lhs.context, rhs.context);
     let sum = if lhs.repr.is_zero() {
-        let mut repr = rhs.repr.clone();
+        let mut repr = context.repr_round_ref(&rhs.repr).value();
         repr.significand *= rhs_sign;
         repr
     } else if rhs.repr.is_zero() {
-        lhs.repr
+        context.repr_round(lhs.repr).value()
     } else {
         match lhs.repr.exponent.cmp(&rhs.repr.exponent) {
             Ordering::Equal => {
@@ -165,12 +168,14 @@ fn add_ref_val<R: Round, const B: Word>(
     assert_finite_operands(&lhs.repr, &rhs.repr);
 
     let context = Context::max(lhs.context, rhs.context);
-    rhs.repr.significand *= rhs_sign;
     let sum = if lhs.repr.is_zero() {
-        rhs.repr
+        let mut repr = context.repr_round(rhs.repr).value();
+        repr.significand *= rhs_sign;
+        repr
     } else if rhs.repr.is_zero() {
-        lhs.repr.clone()
+        context.repr_round_ref(&lhs.repr).value()
     } else {
+        rhs.repr.significand *= rhs_sign;
         match lhs.repr.exponent.cmp(&rhs.repr.exponent) {
             Ordering::Equal => context.repr_round(Repr::new(
                 &lhs.repr.significand + rhs.repr.significand,
@@ -193,11 +198,11 @@ fn add_ref_ref<R: Round, const B: Word>(
 
     let context = Context::max(lhs.context, rhs.context);
     let sum = if lhs.repr.is_zero() {
-        let mut repr = rhs.repr.clone();
+        let mut repr = context.repr_round_ref(&rhs.repr).value();
         repr.significand *= rhs_sign;
         repr
     } else if rhs.repr.is_zero() {
-        lhs.repr.clone()
+        context.repr_round_ref(&lhs.repr).value()
     } else {
         match lhs.repr.exponent.cmp(&rhs.repr.exponent) {
             Ordering::Equal => context.repr_round(Repr::new(
